@@ -101,6 +101,24 @@ func checkString(s string) *finding {
 	if left == -1 {
 		return &finding{"no-termination", "always terminates with arguments or an error", fmt.Sprintf("input %s: %d calls without reaching the end of the input", q(s), len(calls))}
 	}
+	// byte preservation in every context (bare, escaped, quoted, heredoc): the splitter never
+	// invents a non-ASCII byte - each byte >= 0x80 occurs in the arguments at most as often as in the input
+	var inCnt, outCnt [256]int
+	for i := 0; i < len(s); i++ {
+		inCnt[s[i]]++
+	}
+	for _, c := range calls {
+		for _, a := range c.Args {
+			for i := 0; i < len(a); i++ {
+				outCnt[a[i]]++
+			}
+		}
+	}
+	for b := 0x80; b < 256; b++ {
+		if outCnt[b] > inCnt[b] {
+			return &finding{"non-ascii-byte-changed", "words come back unchanged byte-for-byte (including non-ASCII bytes)", fmt.Sprintf("input %s (% x): the arguments contain byte 0x%02x %d times, the input %d times: %q", q(s), s, b, outCnt[b], inCnt[b], calls)}
+		}
+	}
 	// the string entry point is the reader entry point applied to the whole string
 	if f := checkSplitAgrees(s, calls[0]); f != nil {
 		return f
@@ -612,7 +630,7 @@ func replay(wj json.RawMessage) (*fw.Violation, error) {
 
 func init() {
 	fw.Register(&fw.Check{ID: "C17", Level: "exploration",
-		Rule: "ALL byte strings of length <= 7 (quick) / <= 9 (thorough) over the alphabet {space, tab, newline, '\"', backslash, '=', '<', 'a', 0xff}: totality on every one (no panic, terminates, reader drained call by call), SplitArguments agreeing with the first ReadArguments call; ALL strings of length <= 4 / <= 5 over the blank-like alphabet {space, tab, 'a', CR, VT, FF, NUL, 0xc2, 0x85, 0xa0, 0xe3, 0x80} (these are word bytes); strings without quote/backslash/heredoc additionally against the plain-word reference (per-line blank-separated fields byte for byte, eof flags); strings whose backslashes precede a letter or a continuation newline against the argument-count reference. Plus every argument list of <= 3 arguments from a 14-entry pool rendered in every applicable form (bare, quoted, heredoc) with 4 separators (incl. backslash-newline), followed by a second command; plus InjectArgs mapping on each list; plus every heredoc body of <= 4 (quick) / <= 5 (thorough) symbols over {a, newline, E, O, F, space, 0xff} with marker EOF (bodies ending in empty lines or in a prefix of the marker included). distinct = inputs",
+		Rule: "ALL byte strings of length <= 7 (quick) / <= 9 (thorough) over the alphabet {space, tab, newline, '\"', backslash, '=', '<', 'a', 0xff}: totality on every one (no panic, terminates, reader drained call by call), SplitArguments agreeing with the first ReadArguments call, and no byte >= 0x80 occurring more often in the arguments than in the input (whatever the context: bare, after a backslash, quoted, heredoc); ALL strings of length <= 4 / <= 5 over the blank-like alphabet {space, tab, 'a', CR, VT, FF, NUL, 0xc2, 0x85, 0xa0, 0xe3, 0x80} (these are word bytes); strings without quote/backslash/heredoc additionally against the plain-word reference (per-line blank-separated fields byte for byte, eof flags); strings whose backslashes precede a letter or a continuation newline against the argument-count reference. Plus every argument list of <= 3 arguments from a 14-entry pool rendered in every applicable form (bare, quoted, heredoc) with 4 separators (incl. backslash-newline), followed by a second command; plus InjectArgs mapping on each list; plus every heredoc body of <= 4 (quick) / <= 5 (thorough) symbols over {a, newline, E, O, F, space, 0xff} with marker EOF (bodies ending in empty lines or in a prefix of the marker included). distinct = inputs",
 		Run: run, Replay: replay,
 		Assumptions: []string{"length bound as stated; the 'randomly beyond' part is not claimed", "content of words containing a bare backslash is unspecified (only totality and argument count are required)", "an empty heredoc body cannot be rendered by the reference quoting (text must be non-empty)"}})
 }
